@@ -306,6 +306,60 @@ def c20(res):
                       "a case = one tracing evaluation or one bulk-shape observation")
 
 
+def validate_simplify_events(trace, wd):
+    """T (stateful): every recorded simplify call replayed op by op through the actions of Simplify.tla
+    (Trace_Simplify.tla); the events are a re-formatting of the recorded line (parent tape, trace, child tape)."""
+    import concurrent.futures
+    evs = []
+    maxslot = 4
+    ncalls = 0
+    for line in open(trace):
+        r = json.loads(line)
+        if r.get("ev") != "simplify" or not r.get("ok") or len(r["parent"]["ssa"]) > 120:
+            continue
+        ncalls += 1
+        evs.append(json.dumps({"e": "reset", "id": r["id"], "trace": r["trace"]}))
+        for g in r["parent"]["ssa"]:
+            maxslot = max(maxslot, g[2], g[3], g[4])
+            evs.append(json.dumps({"e": "op", "id": r["id"], "op": g}))
+        evs.append(json.dumps({"e": "end", "id": r["id"], "child": r["child"]["ssa"]}))
+    if not evs:
+        return 0, 0, 0, {}
+    cfg = os.path.join(wd, "simplify_events.cfg")
+    with open(cfg, "w") as f:
+        f.write("SPECIFICATION TSpec\nCONSTANTS MaxLive = 1 MaxOps = %d AssertAsWritten = FALSE\nPOSTCONDITION Consumed\nCHECK_DEADLOCK FALSE\n" % (maxslot // 2 + 1))
+    pieces, cur = [], []
+    for e in evs:
+        if e.startswith('{"e": "reset"') and len(cur) >= 30000:
+            pieces.append(cur)
+            cur = []
+        cur.append(e)
+    pieces.append(cur)
+    def one(k):
+        d = os.path.join(wd, "sev_%d" % k)
+        os.makedirs(d, exist_ok=True)
+        pth = os.path.join(d, "events.ndjson")
+        with open(pth, "w") as f:
+            f.write("\n".join(pieces[k]) + "\n")
+        rc, text, dt = tlc("Trace_Simplify", cfg, d, workers=1, timeout=3000,
+                           env={"TRACE": pth, "JAVA_TOOL_OPTIONS": "-Xss1g -Xmx3g -Dtlc2.tool.queue.IStateQueue=StateDeque"})
+        c = parse_counts(text)
+        if rc != 0 or "UNCONSUMED" in text or c is None or c[1] != len(pieces[k]) + 1:
+            sys.stdout.write(text[-3000:])
+            raise ToolError("Trace_Simplify did not consume its events (rc=%s, states=%s, lines=%d)" % (rc, c, len(pieces[k])))
+        shutil.rmtree(d, ignore_errors=True)
+        return text
+    drift = set()
+    rejects = {}
+    with concurrent.futures.ThreadPoolExecutor(max_workers=4) as ex:
+        for text in ex.map(one, range(len(pieces))):
+            drift.update(re.findall(r'<<"DRIFT", (-?\d+)', text))
+            for m in REJECT_RE.finditer(text):
+                rejects.setdefault(int(m.group(1)), set()).update(x.strip().strip('"') for x in m.group(2).split(",") if x.strip())
+    log("T Trace_Simplify: %d simplify calls, %d steps validated against Simplify.tla, %d calls drift, %d rejected" % (ncalls, len(evs), len(drift), len(rejects)))
+    return ncalls, len(evs), len(drift), rejects
+
+
 def c04(res):
     wd = workdir("C04")
     q = res.tier == "quick"
@@ -315,7 +369,15 @@ def c04(res):
     trace = os.path.join(wd, "trace.ndjson")
     if not run_recorder(res, "c04", [progs, res.tier, trace], wd):
         return res.finish("recorder crashed")
+    ncalls, nsteps, ndrift, srej = validate_simplify_events(trace, wd)
+    res.extra["simplify_steps_validated"] = nsteps
+    res.extra["simplify_calls_drifting"] = ndrift
+    if ndrift:
+        print("SPEC-DRIFT property=C04 %d simplify calls: the child tape differs from the one Simplify.tla builds (not a violation)" % ndrift)
     n, rej = validate("Trace_C04", trace, wd, timeout=3000)
+    for pid, clauses in srej.items():
+        rej.setdefault(pid, [])
+        rej[pid] = sorted(set(rej[pid]) | clauses)
     res.validated = n - len(rej)
     res.evaluations = n
     res.samples = sample_lines(trace, maxlen=6000)
